@@ -245,6 +245,10 @@ pub fn reorder_trace(nz_mask: &[bool], merge_method: &str) -> (TreeView, TreeVie
 /// the tree after `post_process_merge`.  The loop below is the default `merge_cliques` of the
 /// `MergeStrategy` trait written out so that the decisions can be recorded.
 pub struct MergeTrace {
+    /// supernodes / separators before merging in IndexSet ITERATION order (the clique-graph
+    /// strategy's `ispermissible` compares intersections as sequences, so order matters there)
+    pub before_snode_raw: Vec<Vec<usize>>,
+    pub before_sep_raw: Vec<Vec<usize>>,
     pub before: TreeView,
     pub decisions: Vec<(usize, usize, bool)>,
     pub loop_end_snode: Vec<Vec<usize>>,
@@ -291,6 +295,8 @@ pub fn merge_trace(nz_mask: &[bool], merge_method: &str) -> MergeTrace {
     let (L, ordering) = ChordalInfo::<f64>::verif_find_graph(nz_mask);
     let mut t = SuperNodeTree::new(&L);
     let before = snap_tree(&t, &ordering);
+    let before_snode_raw: Vec<Vec<usize>> = t.snode.iter().map(|s| s.iter().cloned().collect()).collect();
+    let before_sep_raw: Vec<Vec<usize>> = t.separators.iter().map(|s| s.iter().cloned().collect()).collect();
     let mut decisions = vec![];
     let mut loop_end_snode = before.snode.clone();
     if t.n_cliques > 1 {
@@ -301,7 +307,7 @@ pub fn merge_trace(nz_mask: &[bool], merge_method: &str) -> MergeTrace {
         };
     }
     let after = snap_tree(&t, &ordering);
-    MergeTrace { before, decisions, loop_end_snode, after }
+    MergeTrace { before_snode_raw, before_sep_raw, before, decisions, loop_end_snode, after }
 }
 /// the factor pattern L found for a mask, by columns (rows strictly below the diagonal are all
 /// that QDLDL's logical factorisation stores), and the AMD ordering
